@@ -321,11 +321,11 @@ class _FakeParser:
         return self.values[k]
 
 
-def compose_mpint_by_ast(cb, value):
+def compose_mpint_by_ast(cb, value, method='compose_ssh_mpint', extra=None):
     """bytes compose_ssh_mpint emits for ``value`` under big-endian order, obtained by evaluating the statements of
     compose_ssh_mpint and _compose_mpint (sa.miniexec); the 4 byte word packing is the primitive decided by R1"""
     from ..miniexec import Evaluator, Unsupported
-    outer, inner = cb.methods['compose_ssh_mpint'], cb.methods['_compose_mpint']
+    outer, inner = cb.methods[method], cb.methods['_compose_mpint']
     out = []
 
     def names(name):
@@ -368,7 +368,7 @@ def compose_mpint_by_ast(cb, value):
                 out.append(bytes(args[0]))
                 return None
         return NotImplemented
-    top = Evaluator({'value': value}, outer_hook, attr_hook)
+    top = Evaluator(dict({'value': value}, **(extra or {})), outer_hook, attr_hook)
     run_with_attrs(top, outer.node)
     return b''.join(out)
 
@@ -387,10 +387,10 @@ def run_with_attrs(ev, node):
     return Evaluator.function(ev, node)
 
 
-def parse_mpint_by_ast(pb, data):
+def parse_mpint_by_ast(pb, data, method='parse_ssh_mpint', extra=None):
     """value parse_ssh_mpint stores for the encoding ``data`` (length prefix included)"""
     from ..miniexec import Evaluator, Stop, Unsupported
-    outer, inner = pb.methods['parse_ssh_mpint'], pb.methods['_parse_mpint']
+    outer, inner = pb.methods[method], pb.methods['_parse_mpint']
     state = {'value': None, 'advance': None}
 
     def attr_hook(name):
@@ -436,7 +436,7 @@ def parse_mpint_by_ast(pb, data):
         if d == 'NotEnoughData':
             raise Unsupported('NotEnoughData on a complete encoding')
         return NotImplemented
-    top = Evaluator({'name': 'v'}, outer_hook, attr_hook)
+    top = Evaluator(dict({'name': 'v'}, **(extra or {})), outer_hook, attr_hook)
     orig_run = top.run
 
     def run(stmts):
@@ -503,4 +503,52 @@ def mpint_pipeline(ctx, report, rule='C11.R6', signs=(1, -1)):
                 report.add(rule, pf.construct + '@value[%s,len=%d mod 4]' % ('negative' if v < 0 else 'non-negative', (len(want) - 4) % 4),
                            'the RFC 4251 encoding %s.. of %s.. is parsed as %s.. (cursor advance %s, encoding has %d bytes)' % (
                                want.hex()[:24], hex(v)[:14], hex(pv)[:14] if isinstance(pv, int) else pv, adv, len(want)))
+    if rule == 'C11.R6':
+        fixed_mpint(ctx, report, cb, pb, rule)
     report.sample({'rule': rule, 'values': len(samples), 'bit_lengths': ('every bit length 1..4129' if ctx.thorough else '1..139, 248..263, 1016..1033, 2040..2057, 4088..4105') + '; min and max value of each bit length, both signs'})
+
+
+def fixed_mpint(ctx, report, cb, pb, rule):
+    """compose_mpint(value, length) / parse_mpint(name, length): big-endian, exactly ``length`` bytes, zero padded in
+    front; a value that needs more bytes is refused with InvalidValue"""
+    from ..miniexec import Raised, Unsupported
+    if 'compose_mpint' not in cb.methods or 'parse_mpint' not in pb.methods:
+        report.error('%s: compose_mpint / parse_mpint vanished' % rule)
+        return
+    cf, pf = cb.methods['compose_mpint'], pb.methods['parse_mpint']
+    report.touch(cf)
+    report.touch(pf)
+    bits = list(range(1, 4130)) if ctx.thorough else list(range(1, 80)) + [127, 128, 129, 1023, 1024, 1025, 2047, 2048, 2049, 4095, 4096]
+    try:
+        for b in bits:
+            for v in ((1 << (b - 1)), (1 << b) - 1):
+                need = (b + 7) // 8
+                for length in (need, need + 1, need + 3):
+                    report.count(rule)
+                    want = v.to_bytes(length, 'big')
+                    try:
+                        got = compose_mpint_by_ast(cb, v, 'compose_mpint', {'length': length})
+                    except Raised as e:
+                        report.add(rule, cf.construct + '@refused[pad=%d]' % (length - need), 'a %d bit integer is refused for a %d byte field (%s)' % (b, length, e.what[:60]))
+                        return
+                    if got != want:
+                        report.add(rule, cf.construct + '@value[bits=%d mod 8,pad=%d]' % (b % 8, length - need),
+                                   'the %d bit integer composed into %d bytes is %s.., expected %s..' % (b, length, got.hex()[:24], want.hex()[:24]))
+                        return
+                    pv, adv = parse_mpint_by_ast(pb, want, 'parse_mpint', {'mpint_length': length})
+                    if pv != v or adv != length:
+                        report.add(rule, pf.construct + '@value[bits=%d mod 8,pad=%d]' % (b % 8, length - need),
+                                   '%d bytes %s.. are parsed as %s (cursor advance %s), expected the %d bit integer' % (length, want.hex()[:24], hex(pv)[:18] if isinstance(pv, int) else pv, adv, b))
+                        return
+                if need > 1:
+                    report.count(rule)
+                    try:
+                        got = compose_mpint_by_ast(cb, v, 'compose_mpint', {'length': need - 1})
+                        report.add(rule, cf.construct + '@truncation', 'a %d bit integer is composed into %d bytes (%s..) instead of being refused' % (b, need - 1, got.hex()[:24]))
+                        return
+                    except Raised as e:
+                        if 'InvalidValue' not in e.what:
+                            report.add(rule, cf.construct + '@truncation', 'a value too wide for the field raises %s, not InvalidValue' % e.what)
+                            return
+    except Unsupported as e:
+        report.add(rule, cf.construct + '@tabulation', 'the fixed length mpint code left the subset the tabulation understands: %s' % e)
